@@ -9,6 +9,7 @@ package main
 //        (nominally) by 1.5 T.  Answers per connection: <lower>:<upper> in microseconds, where
 //        lower = (time closedness was observed) - (time just before last seen)  [>= T must hold]
 //        upper = (last time the queue was observed open) - (time just after last seen) [< 1.5T + slack]
+//   turbotunnel sweep <T ms> mass <n>     one connection, n clients seen at once and never again (see runSweepMass)
 //   turbotunnel sweep <T ms> keep <n>     a client is seen every T/4 for 3T with one packet queued;
 //        answers ok | replaced | lost | closed
 
@@ -21,6 +22,66 @@ import (
 	"git.torproject.org/pluggable-transports/snowflake.git/v2/common/turbotunnel"
 )
 
+// runSweepMass: ONE connection, n clients seen at (nearly) the same moment and never again: all n records are
+// expired at the same sweep.  Answer <lower>:<upper>:<n still open at upper> as for expire, over all clients
+// (lower = the earliest observation of a closed queue - the instant before the first was seen; upper = the last
+// time any queue was observed open - the instant after the last was seen), or never:<us>:<open>.
+func runSweepMass(T time.Duration, n int) string {
+	conn := turbotunnel.NewQueuePacketConn(vaddr(0), T)
+	defer conn.Close()
+	chs := make([]<-chan []byte, n)
+	for i := range chs {
+		conn.WriteTo([]byte{byte(i)}, vaddr(100+i)) // a tiny packet waits in every queue
+	}
+	// making n queues (48 KB each) takes a while; "seen at the same moment" = one more touch of all of them that
+	// completes within T/10 (repeated until it does; a queue that expired meanwhile is simply made anew)
+	var before, after time.Time
+	for try := 0; try < 50; try++ {
+		before = time.Now()
+		for i := range chs {
+			chs[i] = conn.OutgoingQueue(vaddr(100 + i))
+		}
+		after = time.Now()
+		if after.Sub(before) < T/10 {
+			break
+		}
+	}
+	if after.Sub(before) >= T/10 {
+		return "!slow-setup"
+	}
+	open := n
+	done := make([]bool, n)
+	lower := time.Duration(-1)
+	lastOpen := after
+	for {
+		now := time.Now()
+		for i, ch := range chs {
+			if done[i] {
+				continue
+			}
+			select {
+			case _, ok := <-ch:
+				if !ok {
+					done[i] = true
+					open--
+					if lower < 0 {
+						lower = now.Sub(before)
+					}
+				}
+			default:
+			}
+		}
+		if open == 0 {
+			return strconv.FormatInt(lower.Microseconds(), 10) + ":" + strconv.FormatInt(lastOpen.Sub(after).Microseconds(), 10) + ":0"
+		}
+		lastOpen = now
+		if now.Sub(after) > 4*T {
+			return "never:" + strconv.FormatInt(now.Sub(after).Microseconds(), 10) + ":" + strconv.Itoa(open)
+		}
+		time.Sleep(T / 100)
+	}
+}
+
 func runSweep(args []string) string {
 	if len(args) < 3 {
 		return "!badcase"
@@ -28,6 +89,9 @@ func runSweep(args []string) string {
 	tms, _ := strconv.Atoi(args[0])
 	n, _ := strconv.Atoi(args[2])
 	T := time.Duration(tms) * time.Millisecond
+	if args[1] == "mass" {
+		return runSweepMass(T, n)
+	}
 	res := make([]string, n)
 	var wg sync.WaitGroup
 	for i := 0; i < n; i++ {
